@@ -16,15 +16,96 @@ pub struct ShrinkStats {
     pub ops_after: usize,
 }
 
-fn fails_same(engine: &dyn Engine, case: &Value, class: &str, acc: &mut Acc) -> Option<usize> {
-    acc.begin_run(0);
-    match engine.run_case(case, acc) {
-        Ok(out) => match out.violation {
-            Some(v) if v.class == class => Some(v.step),
-            _ => None,
-        },
-        Err(_) => None,
+/// Executes candidates on a worker thread that can be abandoned: a candidate may drive the code
+/// under test into an endless loop (a corrupted edge list is a cycle), and a thread cannot be
+/// killed, so after `per_candidate` the worker is left behind (it dies with the process) and a
+/// fresh one takes over.  A candidate that does not finish counts as "does not reproduce".
+pub struct CandidateRunner {
+    engine_name: String,
+    class: String,
+    known: Vec<String>,
+    per_candidate: Duration,
+    tx: Option<std::sync::mpsc::Sender<Value>>,
+    rx: Option<std::sync::mpsc::Receiver<Option<(usize, String)>>>,
+    pub abandoned: u32,
+}
+
+impl CandidateRunner {
+    pub fn new(engine_name: &str, class: &str, known: &[String], per_candidate: Duration) -> Self {
+        CandidateRunner {
+            engine_name: engine_name.to_string(),
+            class: class.to_string(),
+            // recorded findings stay skipped while minimising (unless the case is about one)
+            known: known.iter().filter(|k| !super::class_is_known(&[(*k).clone()], class)).cloned().collect(),
+            per_candidate,
+            tx: None,
+            rx: None,
+            abandoned: 0,
+        }
     }
+
+    fn spawn(&mut self) {
+        let (tx, wrx) = std::sync::mpsc::channel::<Value>();
+        let (wtx, rx) = std::sync::mpsc::channel::<Option<(usize, String)>>();
+        let name = self.engine_name.clone();
+        let class = self.class.clone();
+        let known = self.known.clone();
+        std::thread::Builder::new()
+            .stack_size(256 << 20)
+            .spawn(move || {
+                let engine: Box<dyn Engine> = match crate::engines::get(&name) {
+                    Some(e) => e,
+                    None => return,
+                };
+                let mut acc = Acc::new(Shared::new());
+                acc.known = std::sync::Arc::new(known);
+                while let Ok(case) = wrx.recv() {
+                    acc.begin_run(0);
+                    let r = match engine.run_case(&case, &mut acc) {
+                        Ok(out) => match out.violation {
+                            Some(v) if v.class == class => Some((v.step, v.detail)),
+                            _ => None,
+                        },
+                        Err(_) => None,
+                    };
+                    if wtx.send(r).is_err() {
+                        return;
+                    }
+                }
+            })
+            .expect("spawn candidate worker");
+        self.tx = Some(tx);
+        self.rx = Some(rx);
+    }
+
+    /// `Some((fail step, detail))` when the candidate fails with the same class.
+    pub fn run(&mut self, case: &Value) -> Option<(usize, String)> {
+        if self.abandoned >= 6 {
+            return None;
+        }
+        if self.tx.is_none() {
+            self.spawn();
+        }
+        if self.tx.as_ref().unwrap().send(case.clone()).is_err() {
+            self.tx = None;
+            self.rx = None;
+            return None;
+        }
+        match self.rx.as_ref().unwrap().recv_timeout(self.per_candidate) {
+            Ok(r) => r,
+            Err(_) => {
+                // hung (or the worker died): leave it behind
+                self.abandoned += 1;
+                self.tx = None;
+                self.rx = None;
+                None
+            }
+        }
+    }
+}
+
+fn fails_same(runner: &mut CandidateRunner, case: &Value) -> Option<usize> {
+    runner.run(case).map(|x| x.0)
 }
 
 fn ops_of(case: &Value) -> Vec<Value> {
@@ -80,22 +161,18 @@ fn get_mut<'a>(v: &'a mut Value, path: &[PathEl]) -> Option<&'a mut Value> {
 }
 
 pub fn minimise(
-    engine: &dyn Engine,
+    runner: &mut CandidateRunner,
     case: &Value,
-    class: &str,
     fail_step: usize,
     budget: Duration,
-    known: &[String],
     on_improve: &mut dyn FnMut(&Value),
 ) -> (Value, ShrinkStats) {
     let t0 = Instant::now();
-    let mut acc = Acc::new(Shared::new());
-    // recorded findings stay skipped while minimising (unless the case is about one)
-    acc.known = std::sync::Arc::new(known.iter().filter(|k| !super::class_is_known(&[(*k).clone()], class)).cloned().collect());
     let mut best = case.clone();
     let mut execs = 0u64;
     let ops_before = ops_of(case).len();
     let over = |t0: &Instant| t0.elapsed() > budget;
+    let _ = &over;
 
     // 0. truncate after the failing step
     {
@@ -103,7 +180,7 @@ pub fn minimise(
         if fail_step + 1 < ops.len() {
             let cand = with_ops(&best, ops[..=fail_step].to_vec());
             execs += 1;
-            if fails_same(engine, &cand, class, &mut acc).is_some() {
+            if fails_same(runner, &cand).is_some() {
                 best = cand;
                 on_improve(&best);
             }
@@ -128,7 +205,7 @@ pub fn minimise(
                 cand_ops.extend_from_slice(&ops[end..]);
                 let cand = with_ops(&best, cand_ops);
                 execs += 1;
-                if fails_same(engine, &cand, class, &mut acc).is_some() {
+                if fails_same(runner, &cand).is_some() {
                     best = cand;
                 on_improve(&best);
                     progress = true;
@@ -183,7 +260,7 @@ pub fn minimise(
                         ops2[oi] = op2;
                         let cand = with_ops(&best, ops2);
                         execs += 1;
-                        if fails_same(engine, &cand, class, &mut acc).is_some() {
+                        if fails_same(runner, &cand).is_some() {
                             best = cand;
                 on_improve(&best);
                             progress = true;
@@ -223,7 +300,7 @@ pub fn minimise(
                 let mut cand = best.clone();
                 cand["cfg"][key] = Value::from(c);
                 execs += 1;
-                if fails_same(engine, &cand, class, &mut acc).is_some() {
+                if fails_same(runner, &cand).is_some() {
                     best = cand;
                 on_improve(&best);
                     break;
